@@ -61,6 +61,11 @@ COMMON = gen.Profile("common", strings="alpha", bool_with_01=False, numeric_stri
                      empty_strings=False, alpha="abcxyz")
 
 
+# printable text that looks like syntax of one of the formats (a loader that pre-processes the raw text must not touch it)
+PUNCT_STRINGS = ["a, b", "[;,]", "x,}", "(a, b, ]", "k: v", "# no comment", "- x", "'q'", '"dq"', "a\\b", "{}", "[]", "1,", ", ",
+                 "{a, b}", "<tag>", "&amp;", "// c", "/* c */", "yes", "~", "a,\n]", "%d", "$x", "a=b", "true,", "null]"]
+
+
 def common_data(r, depth=0, root=True):
     """Data expressible in JSON, JSON5, YAML and plist alike: dict/list roots, non-empty alphanumeric string keys, values
     str / 64-bit int / non-integral float / bool, no null, printable text."""
@@ -69,6 +74,8 @@ def common_data(r, depth=0, root=True):
         x = 0.5 + x / 2
     if depth >= 3 or x < 0.5:
         y = r.random()
+        if y < 0.12:
+            return r.choice(PUNCT_STRINGS)
         if y < 0.4:
             return gen.gstr(r, COMMON)
         if y < 0.7:
@@ -80,7 +87,7 @@ def common_data(r, depth=0, root=True):
         return [common_data(r, depth + 1, False) for _ in range(r.randint(0 if not root else 1, 4))]
     d = {}
     for _ in range(r.randint(0 if not root else 1, 4)):
-        d[gen.gstr(r, COMMON)] = common_data(r, depth + 1, False)
+        d[r.choice(PUNCT_STRINGS) if r.random() < 0.1 else gen.gstr(r, COMMON)] = common_data(r, depth + 1, False)
     return d
 
 
